@@ -85,6 +85,10 @@ CHECKS["C05"]["replay_test"] = "TestWorldReplay|TestC05LimitsReplay"
 CHECKS["C05"]["rule"] += ("; third run directly on ugm.Manager: sequences of UpdateConfig (fresh configurations and mutations that drop / change / add limit entries) interleaved with "
                           "Headroom, CanRunApp, Increase/DecreaseTrackedResource, compared after every op with 'what the latest configuration says' (REST DAO limits, head room, admission); "
                           "non-trivial = at least 2 reloads of which one changes the limit in force for a user that holds usage")
+CHECKS["C06"] = world("C06", "TestC06", HIST + "profile gang (85% gang applications, 1-2 task groups, real asks equal/smaller/larger than the placeholder, timers fired at any point, node removal, "
+    "preemption, predicates that refuse the placeholder's node, late/duplicate/missing confirmations); non-trivial = a confirmed swap or a fired placeholder timeout, plus a disturbance "
+    "(node removed with a swap in flight, placeholder or real ask cancelled mid swap, preempted placeholder, duplicated or dropped confirmation, application removed with allocations)",
+    quick=(14, 250))
 CHECKS["C09"] = world("C09", "TestC09", HIST + "profile reserve (reservation delay 0, small nodes, 30% required-node asks); non-trivial = a reservation was made and one was removed by "
     "something other than a scheduling cycle (ask/app/node removal, RM reported binding)")
 CHECKS["C10"] = world("C10", "TestC10", HIST + "profile churn-apps; non-trivial = an application that visited at least 4 states")
@@ -127,6 +131,8 @@ META = {
     "C03": _world_meta("conservation equalities over application, queue, node and partition ledgers after every step and exact zero after a drain epilogue"),
     "C04": _world_meta("a shim-side reference model that judges the SI traffic only (exactly-once binding, legal releases, one answer per application/node)"),
     "C05": _world_meta("the limits of the latest accepted configuration and usage = sum of live allocations per user/group and queue"),
+    "C06": _world_meta("step predicates on swap links (same application and task group, real no larger than placeholder), on confirmations (placeholder gone, real on the announced node, "
+                       "node/queue/user usage not above the pre-step values), on placeholder counters, on timeout behaviour per gang style and 'no placeholder outlives its application'"),
     "C09": _world_meta("equality of the application, node and queue views of the reservation relation and exclusivity rules after every step"),
     "C10": _world_meta("the documented application life-cycle table applied to shim messages and state log, plus state/ledger agreement"),
     "C11": _world_meta("the max-applications gate evaluated on the pre-step queue view and counter sanity after every step"),
